@@ -3,7 +3,8 @@ use crate::rng::Rng;
 use crate::srv::*;
 use crate::tok::*;
 
-pub const KEYS: &[&[u8]] = &[b"k1", b"k2", b"k3", b"", b"\x00\xffb", b"key:with space"];
+// k1/ka share engine shard 1 (FNV-1a mod 16), k2/kb shard 8: same-shard and cross-shard paths are both exercised
+pub const KEYS: &[&[u8]] = &[b"k1", b"k2", b"k3", b"", b"\x00\xffb", b"key:with space", b"ka", b"kb"];
 pub const OTHER_KEYS: &[&[u8]] = &[b"l1", b"s1", b"h1", b"z1", b"x1"];
 pub const VALUES: &[&[u8]] = &[b"", b"a", b"hello", b"10", b"-1", b"9223372036854775807", b"-9223372036854775808",
     b"007", b" 5", b"+5", b"1.5", b"\x00\xff\r\n", b"9223372036854775806", b"abc def"];
